@@ -895,7 +895,7 @@ def CustomObservable(type='x-custom-observable', properties=None, id_contrib_pro
             class NameExtension:
                 extension_type = 'new-sco'
 
-            extension = extension_name.split('--')[1]
+            extension = extension_name.split('--')[-1]
             extension = extension.replace('-', '')
             NameExtension.__name__ = 'ExtensionDefinition' + extension
             cls.with_extension = extension_name
